@@ -196,6 +196,8 @@ def parse_trace(path):
         res.setdefault(cid, []).append(d)
     return res
 
+RAN = set()    # ids of the cases the last run_batches handed to a harness binary
+
 def run_batches(cases, model_exe, routing, bindirs, workdir, tag):
     """cases: list of (case_id, cfg, steps). Writes case files grouped by (binary,
     profile, shard), runs model and harness on each, returns (model, impl) traces and
@@ -203,10 +205,12 @@ def run_batches(cases, model_exe, routing, bindirs, workdir, tag):
     os.makedirs(workdir, exist_ok=True)
     from . import gen
     groups = {}
+    RAN.clear()
     for cid, cfg, steps in cases:
         b = routing.get(cfg_key(cfg))
         if b is None:
             continue
+        RAN.add(cid)
         prof = "debug" if cfg["trap"] else "release"
         groups.setdefault((b, prof), []).append("%s %s ; %s" % (cid, gen.cfg_head(cfg), " ; ".join(steps)))
     jobs = []
@@ -217,22 +221,57 @@ def run_batches(cases, model_exe, routing, bindirs, workdir, tag):
             base = os.path.join(workdir, "%s-%s-%s-%d" % (tag, b, prof, s))
             open(base + ".case", "w").write("\n".join(part) + "\n")
             jobs.append((b, prof, base))
+    def run_impl(exe, lines, base):
+        """Run the harness on the case lines; a process death loses only the case that caused it: that case
+        is marked, the cases after it are run in a fresh process.  -> (traces, [(case id, rc, output)])"""
+        traces, died = {}, []
+        todo = list(lines)
+        attempt = 0
+        while todo:
+            cf, of = "%s.r%d.case" % (base, attempt), "%s.r%d.impl" % (base, attempt)
+            open(cf, "w").write("\n".join(todo) + "\n")
+            try: os.remove(of)
+            except OSError: pass
+            r = subprocess.run([exe, cf, of], stdout=subprocess.PIPE, stderr=subprocess.STDOUT, text=True)
+            got = parse_trace(of)
+            traces.update(got)
+            if r.returncode == 0:
+                break
+            # first case without an end line is the one that killed the process
+            k = 0
+            while k < len(todo):
+                cid = todo[k].split(" ", 1)[0]
+                ls = got.get(cid)
+                if ls and (ls[-1].get("_step") == "end" or "_skipped" in ls[-1]):
+                    k += 1
+                    continue
+                break
+            if k >= len(todo):
+                break
+            cid = todo[k].split(" ", 1)[0]
+            traces[cid] = (got.get(cid) or []) + [{"_step": str(len(got.get(cid) or [])), "_raw": "<process died rc=%d>" % r.returncode,
+                                                   "viol": "process-died_rc=%d" % r.returncode}]
+            died.append((cid, r.returncode, r.stdout[-600:]))
+            todo = todo[k + 1:]
+            attempt += 1
+        return traces, died
     def run_one(job):
         b, prof, base = job
         r1 = subprocess.run([model_exe, base + ".case", base + ".model"], stdout=subprocess.PIPE, stderr=subprocess.STDOUT, text=True)
         exe = os.path.join(bindirs[prof], b)
-        r2 = subprocess.run([exe, base + ".case", base + ".impl"], stdout=subprocess.PIPE, stderr=subprocess.STDOUT, text=True)
-        return (job, r1.returncode, r1.stdout, r2.returncode, r2.stdout)
+        lines = [l for l in open(base + ".case").read().split("\n") if l]
+        traces, died = run_impl(exe, lines, base)
+        return (job, r1.returncode, r1.stdout, traces, died)
     model, impl, crashed = {}, {}, []
     with ThreadPoolExecutor(max_workers=NPROC) as ex:
-        for job, rc1, o1, rc2, o2 in ex.map(run_one, jobs):
+        for job, rc1, o1, traces, died in ex.map(run_one, jobs):
             b, prof, base = job
             if rc1 != 0:
                 raise ToolBroken("model run failed on %s:\n%s" % (base, o1[-2000:]))
             model.update(parse_trace(base + ".model"))
-            if rc2 != 0:
-                crashed.append((base, rc2, o2[-2000:]))
-            impl.update(parse_trace(base + ".impl"))
+            for d in died:
+                crashed.append((base,) + d)
+            impl.update(traces)
     return model, impl, crashed
 
 def run_single(case_line, exe, workdir, name):
